@@ -28,6 +28,7 @@ CELL_POOLS = [
     ("0", "0", "1"),
     ("F", "T", "0", "1"),
     ("0", "", "N", "[]", "1", "2.5", "x", "[0]", "-1", "T"),
+    ("0", "0", "1", "nan", "inf", "-inf", "2.5"),
 ]
 
 
@@ -68,6 +69,7 @@ class C11(common.ModelProperty):
         "rejected:ragged-or-non-square",
         "rejected:side-array-length",
         "read-back-checked",
+        "read-back-with-caching-on-and-off",
         "default-link-type",
         "universe-as-adjacency-value",
     ]
@@ -180,12 +182,42 @@ class C11(common.ModelProperty):
             return out, v
         if out is not None and "exc" not in out and pairs:
             st.built = getattr(st, "built", 0) + 1
-        if out is not None and "exc" not in out and fresh:
+        if out is not None and "exc" not in out and pairs and v is None:
+            v = self.read_back_either_way(st, op, pairs)
+        if v is None and out is not None and "exc" not in out and fresh:
             cls = op.get("cls") or ("UnDirectedEdge" if k == "adj_dict" else "DirectedEdge")
             if cls != "OtherTwoEnded" and (k == "adj_dict" or len(set(op["verts"])) == len(op["verts"])):
                 s["probe:read-back-checked"] += 1
                 v = self.read_back(st, op, cls, named, pairs)
         return out, v
+
+    def read_back_either_way(self, st, op, pairs):
+        """
+        Also for vertices that had links before: what find_links and
+        neighbors() say about the listed pairs must not depend on whether
+        neighbor caching is on when the result is read back.
+        """
+        from egsim import seams
+
+        st.stats["probe:read-back-with-caching-on-and-off"] += 1
+        reads = []
+        for a, b in list(dict.fromkeys(pairs))[:6]:
+            reads.append({"op": "find_links", "a": a, "b": b})
+            reads.append({"op": "find_links", "a": a, "b": b, "ds": True})
+            reads.append({"op": "neighbors", "v": a, "unk": "nb"})
+        for r in reads:
+            off = st.ex.apply(dict(r))
+            seams.set_flag(True)
+            try:
+                on = st.ex.apply(dict(r))
+            finally:
+                seams.set_flag(False)
+            if on != off:
+                return engine.viol(
+                    "C11/read-back-depends-on-caching:" + r["op"],
+                    {"op": op, "read": r, "caching_off": off, "caching_on": on},
+                )
+        return None
 
     def read_back(self, st, op, cls, named, pairs):
         """neighbors()/find_links reproduce the input adjacency."""
